@@ -169,6 +169,48 @@ def dict_entries(ctx):
     tlc.cleanup(res.workdir)
 
 
+def field_perturbations(ctx, cat, cls):
+    """FieldEq.tla: for every class and every field, two regions that differ in that field only (every pair of valid catalogue tokens)
+    are equal exactly when the tokens denote the same value."""
+    res = tlc.run('FieldEq', cfg_text=('SPECIFICATION SpecF\nCONSTANTS Classes <- ClsAll\n Acts <- ActsEq\n MaxObj = 2\n Deviations <- NoDev\n ExtraPix <- TolProbes\n'
+                                       ' MaxDepth = 1\nINVARIANT Reflexive\nINVARIANT Symmetric\nCHECK_DEADLOCK FALSE\n'), dump=True, tag='c16field', timeout=1200)
+    ctx.tlc(res, 'FieldEq: single-field perturbations of every field of every class')
+    if res.violated:
+        ctx.violation(f'C16|model|{res.violated}', f'FieldEq.tla: {res.violated} fails in the model', {'trace': res.trace[-1:]})
+        tlc.cleanup(res.workdir)
+        return
+    n = 0
+    for st in parse_dump(res.dump_path):
+        n += 1
+        c, f, t1, t2 = st['cls'], st['field'], st['t1'], st['t2']
+        w = objs.World(cat, cls)
+        rep = objs.fmap(st['rep'])
+        ctx.case(('fieldeq', c, f, t1, t2), t1 != t2)
+        case = {'cls': c, 'field': f, 't1': t1, 't2': t2, 'other_arguments': rep}
+        try:
+            a = cls[c](**{k: w.val(v if k != f else t1) for k, v in rep.items()})
+            b = cls[c](**{k: w.val(v if k != f else t2) for k, v in rep.items()})
+            via_copy = a.copy(**{f: w.val(t2)}) if f != 'operator' or True else None
+            w.slots = {1: a, 2: b}
+            got = w.equality()
+            w.slots = {1: via_copy, 2: b}
+            got_copy = w.equality()
+            w.slots = {1: via_copy, 2: a}
+            got_vs_source = w.equality()
+        except Exception as ex:  # noqa
+            ctx.violation(f'C16|field|raises|{c}.{f}|{type(ex).__name__}', f'{c}: building / comparing regions that differ in {f} ({t1} vs {t2}) raised {ex!r}', case)
+            continue
+        if got != st['want']:
+            ctx.violation(f'C16|field|{c}.{f}|{t1}~{t2}', f"{c}: regions that differ in {f} only ({t1} vs {t2}) compare as {got}, the tokens are {'the same value' if st['want'] == 'eq' else 'different values'}", case)
+        elif c.startswith('Compound') and f == 'region1':
+            pass          # (a compound made without meta takes its first member's: copy(region1=...) keeps the source's, a fresh compound takes the new member's)
+        elif got_copy != 'eq' or got_vs_source != st['want']:
+            ctx.violation(f'C16|field-copy|{c}.{f}|{t1}~{t2}', f'{c}: copy({f}={t2}) of the region with {f}={t1}: compared with a region built with {t2}: {got_copy}; with its source: {got_vs_source} (expected eq, {st["want"]})', case)
+    ctx.traces += n
+    ctx.note('field_perturbation_pairs', n)
+    tlc.cleanup(res.workdir)
+
+
 def run(ctx):
     quick = ctx.tier == 'quick'
     cat, cls = objs.catalogue(), objs.classes()
@@ -209,6 +251,7 @@ def run(ctx):
     tlc.cleanup(res.workdir)
     origin_polygons(ctx)
     dict_entries(ctx)
+    field_perturbations(ctx, cat, cls)
     lists.run(ctx, 'C16')
     ctx.assumptions += ['parameter values are catalogue tokens; pixel tolerance probed at 1e-7 (equal) and 1e-3 (different), not inside the asymmetric band of numpy.allclose',
                         'unit re-expression probed for deg/arcmin and arcmin/arcsec']
